@@ -96,6 +96,83 @@ func (o *Once) Do(f func()) {
 	o.o.Do(f)
 }
 
+// Locker is sync.Locker.
+type Locker = sync.Locker
+
+// Map replaces sync.Map: every operation is a scheduling point (the operations
+// themselves are atomic, so they are not subject to the race check).
+type Map struct{ m sync.Map }
+
+func (m *Map) pt(op string) {
+	if rt := active; rt != nil {
+		rt.point(op_(opYield, fmt.Sprintf("sync.Map.%s@%p", op, m)))
+	}
+}
+
+// Load is a scheduling point.
+func (m *Map) Load(key interface{}) (interface{}, bool) { m.pt("Load"); return m.m.Load(key) }
+
+// Store is a scheduling point.
+func (m *Map) Store(key, value interface{}) { m.pt("Store"); m.m.Store(key, value) }
+
+// LoadOrStore is a scheduling point.
+func (m *Map) LoadOrStore(key, value interface{}) (interface{}, bool) {
+	m.pt("LoadOrStore")
+	return m.m.LoadOrStore(key, value)
+}
+
+// LoadAndDelete is a scheduling point.
+func (m *Map) LoadAndDelete(key interface{}) (interface{}, bool) {
+	m.pt("LoadAndDelete")
+	return m.m.LoadAndDelete(key)
+}
+
+// Delete is a scheduling point.
+func (m *Map) Delete(key interface{}) { m.pt("Delete"); m.m.Delete(key) }
+
+// Range is a scheduling point.
+func (m *Map) Range(f func(key, value interface{}) bool) { m.pt("Range"); m.m.Range(f) }
+
+// Pool replaces sync.Pool. Under exploration it is a deterministic LIFO free
+// list (always re-using the most recently returned object is a behaviour
+// sync.Pool is allowed to show and the one that exposes stale state); Get
+// and Put are scheduling points.
+type Pool struct {
+	New  func() interface{}
+	p    sync.Pool
+	free []interface{}
+}
+
+// Get is a scheduling point.
+func (p *Pool) Get() interface{} {
+	if rt := active; rt != nil {
+		rt.point(op_(opYield, fmt.Sprintf("sync.Pool.Get@%p", p)))
+		if n := len(p.free); n > 0 {
+			v := p.free[n-1]
+			p.free = p.free[:n-1]
+			return v
+		}
+		if p.New != nil {
+			return p.New()
+		}
+		return nil
+	}
+	p.p.New = p.New
+	return p.p.Get()
+}
+
+// Put is a scheduling point.
+func (p *Pool) Put(v interface{}) {
+	if rt := active; rt != nil {
+		rt.point(op_(opYield, fmt.Sprintf("sync.Pool.Put@%p", p)))
+		p.free = append(p.free, v)
+		return
+	}
+	p.p.Put(v)
+}
+
+func op_(k opKind, name string) op { return op{kind: k, name: name} }
+
 // WaitGroup replaces sync.WaitGroup (only the inactive mode is supported;
 // the explored harnesses do not use it).
 type WaitGroup struct{ sync.WaitGroup }
